@@ -60,7 +60,7 @@ QueryCasesT == {x \in {[pos |-> "query", ty |-> ty, c |-> c] : ty \in ScalarType
                           c \in StringClasses \cup IntClasses \cup BoolClasses \cup EnumClasses} : x.c \in ClassesOf(x.ty)}
 QueryStructCases == {[pos |-> "query", ty |-> "struct", c |-> c] :
                        c \in {"all_absent", "required_missing", "required_present", "duplicate_key",
-                              "unknown_key", "key_without_value", "repeated_ampersand"}}
+                              "unknown_key", "key_without_value", "repeated_ampersand", "pct_encoded_key"}}
 
 \* JSON body of a struct type
 JsonCases == {[pos |-> "json", ty |-> "struct", c |-> c] :
@@ -70,6 +70,7 @@ JsonCases == {[pos |-> "json", ty |-> "struct", c |-> c] :
                        "wrong_type", "over_range", "negative_unsigned", "float_for_int", "unknown_variant",
                        "missing_field", "duplicate_field", "truncated", "trailing_comma", "trailing_content",
                        "second_document", "not_json", "empty_body", "wrong_content_type", "invalid_utf8_in_string",
+                       "null_for_required", "whitespace_body",
                        "unsupported_content_type", "null_body", "array_body"}}
 FormCases == {[pos |-> "form", ty |-> "struct", c |-> c] :
                 c \in {"ok", "ok_plus_space", "ok_pct", "ok_unicode", "wrong_type", "missing_field",
@@ -83,7 +84,7 @@ Valid(x) ==
   CASE x.pos = "path" -> ValidText(x.ty, x.c)
     [] x.pos = "wild" -> TRUE
     [] x.pos = "query" /\ x.ty # "struct" -> (x.c = "empty" /\ x.ty = "string") \/ (x.c # "empty" /\ ValidText(x.ty, x.c))
-    [] x.pos = "query" /\ x.ty = "struct" -> x.c \in {"all_absent", "required_present", "unknown_key", "repeated_ampersand"}
+    [] x.pos = "query" /\ x.ty = "struct" -> x.c \in {"all_absent", "required_present", "unknown_key", "repeated_ampersand", "pct_encoded_key"}
                                               \* NB "all_absent" is sent to an endpoint without required members
     [] x.pos = "json" -> x.c \in {"ok", "ok_unicode", "ok_extremes", "ok_escapes", "ok_unknown_member",
                                    "ok_optional_absent", "ok_optional_null", "ok_whitespace", "ok_no_content_type",
